@@ -4,22 +4,46 @@
 def run(ctx):
     ctx.lean_obligations(["SV.Props.C01"], drivers=["svdriver_c01"])
     quick = ctx.tier == "quick"
-    # reader level: VerifiableReader / reader over the memory metadata store
+    # reader level: VerifiableReader / reader over the memory metadata store (in-package), memory +
+    # directory chunk caches, corrupting blob source, prefetch racing with VerifyTOC (goroutines)
     b = ctx.go_test_binary("fs/reader", "h_reader")
     if b:
         ctx.correspond(b, "TestVerifC01", "svdriver_c01", "c01reader",
-                       env={"VERIF_N": 90 if quick else 2500, "VERIF_RACES": 40 if quick else 1500},
+                       env={"VERIF_N": 70 if quick else 2500, "VERIF_RACES": 40 if quick else 2000},
+                       timeout=600 if quick else 3000)
+    # layer level: orders of Verify / SkipVerify requests reaching one real layer object, reads
+    # through the node API
+    b = ctx.go_test_binary("fs/layer", "h_layer")
+    if b:
+        ctx.correspond(b, "TestVerifC01Layer", "svdriver_c01", "c01layer",
+                       env={"VERIF_N": 50 if quick else 2000}, timeout=600 if quick else 3000)
+    # filesystem level: the ladder of the real filesystem.Mount over the real layer.Resolver
+    b = ctx.go_test_binary("fs", "h_fs")
+    if b:
+        ctx.correspond(b, "TestVerifC01Mount", "svdriver_c01", "c01mount",
+                       env={"VERIF_N": 30 if quick else 1500}, timeout=600 if quick else 3000)
+    # the db (bbolt) metadata store under the same reader-level scenarios
+    b = ctx.go_test_binary("containerd-stargz-grpc/db", "h_db", module_dir="cmd")
+    if b:
+        ctx.correspond(b, "TestVerifC01DB", "svdriver_c01", "c01db",
+                       env={"VERIF_N": 25 if quick else 1200, "VERIF_RACES": 10 if quick else 600},
                        timeout=600 if quick else 3000)
     return ctx.finish(
         level="proof",
-        rule="one case = (compression, chunk size, min-chunk size, metadata store, chunk cache kind, view at open "
-             "time, alteration kinds, shape of the op sequence); every op is compared impl-vs-model and the "
-             "property predicates (digest actually hashed, bytes returned, bytes cached) are evaluated on the "
+        rule="one case = (level: reader/layer/mount, metadata store, compression, chunk size, min-chunk size, chunk "
+             "cache kind, view served at open time, alteration kinds, shape of the op sequence incl. the outcome of "
+             "each race); every op is compared impl-vs-model and the property predicates (digest actually hashed, "
+             "bytes returned vs source tar / TOC-pinned payload, bytes left in the chunk cache) are evaluated on the "
              "implementation",
         assumptions=[
-            "H = SHA-256 and the gzip/zstd/tar/JSON decoders are parameters of the model (trusted); all claims are digest equalities",
-            "the critical sections of VerifyTOC and readAndCache under prohibitVerifyFailureMu are atomic (RW lock); "
+            "H = SHA-256 and the gzip/zstd/tar/JSON decoders are parameters of the model (trusted); all claims are "
+            "digest equalities, no collision assumption",
+            "the critical sections of VerifyTOC and readAndCache under prohibitVerifyFailureMu are atomic (RW lock): "
             "schedules = interleavings of prefetchBegin / prefetchCommit / layerVerify steps",
-            "layer.Verify / layer.SkipVerify calls reaching one layer object are serialised (the layer has no lock of its own)",
+            "layer.Verify / layer.SkipVerify calls reaching one layer object are serialised (layer.r / layer.verified "
+            "are not guarded by a lock)",
             "the chunk cache returns what was committed under a key (C11)",
+            "theorems about returned/cached BYTES are *_partial: they need FaithfulRun (clone-based prefetches, "
+            "Cache(WithReader) = layer.backgroundFetch, compare with the TOC of the layer object); false for the "
+            "memory metadata store whose Clone re-parses the TOC unverified (sig clone-prefetch-unverified-toc)",
         ])
